@@ -272,6 +272,16 @@ func (s *sshSimulatorService) Handle(ctx context.Context, conn net.Conn) error {
 		// connection's queue of pending opens and then blocked its packet
 		// loop, so that not even the client's disconnect was noticed any more
 		go func() {
+			// a failure while serving this channel stays with this
+			// connection: the dispatcher's recover does not cover goroutines
+			// started here
+			defer func() {
+				if r := recover(); r != nil {
+					log.Errorf("Error serving ssh channel: %+v", r)
+					sconn.Close()
+				}
+			}()
+
 			for req := range requests {
 				log.Debugf("Request: %s %s %s %s\n", channel, req.Type, req.WantReply, req.Payload)
 
